@@ -199,7 +199,7 @@ type fnBroadcaster[M any] struct{ f func(M) }
 func (b fnBroadcaster[M]) Broadcast(_ context.Context, m M) { b.f(m) }
 
 // runDriverTrace runs the real driver twice on one WAL (second run = restart with replay).
-func runDriverTrace(res *lib.Result, r *lib.RNG, idx int) {
+func runDriverTrace(res *lib.Result, r *lib.RNG, idx int) (totalCommits, totalTimeouts int) {
 	cfg := &Cfg{Powers: []uint64{1, 1, 1, 1}, Total: 4, VMod: 4, VRem: 3, PMul: 1, Tbl: []int{0, 1, 2, 3}}
 	me := r.Intn(4)
 	store := &memWAL{}
@@ -314,6 +314,8 @@ func runDriverTrace(res *lib.Result, r *lib.RNG, idx int) {
 			}
 		}
 		res.HitN(fmt.Sprintf("driver/phase%d/commits", phase), commits)
+		totalCommits += commits
+		totalTimeouts += rec.hits["ProcessTimeout"]
 		allBad = append(allBad, rec.bad...)
 		ncalls := len(rec.calls)
 		sample := rec.calls[:min(ncalls, 14)]
@@ -333,4 +335,5 @@ func runDriverTrace(res *lib.Result, r *lib.RNG, idx int) {
 			What:   "consensus/driver called the state machine outside the discipline its loop is proved to keep: " + allBad[0],
 			Replay: map[string]any{"mode": "driver-trace", "seed_index": idx, "problems": allBad[:min(len(allBad), 10)]}})
 	}
+	return totalCommits, totalTimeouts
 }
